@@ -204,13 +204,22 @@ def gen_case(rng, family=None):
             for a in axn:
                 other = rng.choice(["left", "right", "outer", "inner"])
                 axes[a] = {"n": rng.randint(3, 4), "other": other}
-            return {"kind": "parse", "conv": "comodo", "axes": axes, "fill": float(rng.randint(1, 5)),
+            spec = {"kind": "parse", "conv": "comodo", "axes": axes, "fill": float(rng.randint(1, 5)),
                     "seed": rng.randrange(10**6)}
+            if rng.random() < 0.25:
+                # malformed on two axes in different ways: which one is reported must not depend on the hash seed
+                a1, a2 = rng.sample(axn, 2)
+                spec["malformed"] = {a1: "two_centers", a2: rng.choice(["bad_shift", "bad_length"])}
+            return spec
         nd = rng.choice([2, 2, 3])
         pads = [rng.choice(["high", "low", "both", "none"]) for _ in range(3)]
-        return {"kind": "parse", "conv": "sgrid", "ndim": nd, "vertical": nd == 2 and rng.random() < 0.6,
+        spec = {"kind": "parse", "conv": "sgrid", "ndim": nd, "vertical": nd == 2 and rng.random() < 0.6,
                 "pads": pads, "n": [rng.randint(3, 4) for _ in range(3)], "fill": float(rng.randint(1, 5)),
                 "seed": rng.randrange(10**6)}
+        if rng.random() < 0.3:
+            i1, i2 = rng.sample(range(nd), 2)
+            spec["malformed"] = {str(i1): "unknown_padding", str(i2): "node_dim_missing"}
+        return spec
     if family == "metrics":
         axn = ["X", "Y", "Z"]
         rng.shuffle(axn)
@@ -322,6 +331,13 @@ def _comodo_ds(spec):
             coords[o] = ((o,), np.arange(n + 1) * 1.0, {"axis": a, "c_grid_axis_shift": -0.5})
         else:
             coords[o] = ((o,), np.arange(n - 1) + 1.0, {"axis": a, "c_grid_axis_shift": -0.5})
+        bad = (spec.get("malformed") or {}).get(a)
+        if bad == "two_centers":
+            coords[o] = ((o,), coords[o][1], {"axis": a})  # a second coordinate without shift
+        elif bad == "bad_shift":
+            coords[o] = ((o,), np.arange(n) * 1.0, {"axis": a, "c_grid_axis_shift": 0.25})
+        elif bad == "bad_length":
+            coords[o] = ((o,), np.arange(n + 3) * 1.0, {"axis": a, "c_grid_axis_shift": -0.5})
         dims.append(c)
     shape = [spec["axes"][a]["n"] for a in spec["axes"]]
     data = np.random.default_rng(spec["seed"]).integers(-30, 30, size=shape).astype("float64")
@@ -340,7 +356,13 @@ def _sgrid_ds(spec):
     attrs = {"cf_role": "grid_topology", "topology_dimension": nd,
              "node_dimensions": " ".join(names[i][1] for i in range(nd))}
     key = "face_dimensions" if nd == 2 else "volume_dimensions"
-    attrs[key] = " ".join(f"{names[i][0]}: {names[i][1]} (padding: {spec['pads'][i]})" for i in range(nd))
+    mal = spec.get("malformed") or {}
+    parts = []
+    for i in range(nd):
+        pad_word = "weird" if mal.get(str(i)) == "unknown_padding" else spec["pads"][i]
+        node = "NOPE" if mal.get(str(i)) == "node_dim_missing" else names[i][1]
+        parts.append(f"{names[i][0]}: {node} (padding: {pad_word})")
+    attrs[key] = " ".join(parts)
     sizes = {}
     for i in range(nd):
         sizes[names[i][0]] = n[i]
@@ -405,7 +427,7 @@ def execute(spec, pi=0):
             if kind == "parse":
                 ds, q = (_comodo_ds(spec) if spec["conv"] == "comodo" else _sgrid_ds(spec))
                 grid = xgcm.Grid(ds, periodic=False)
-                out = [list(grid.axes), [[a, list(ax.coords.items())] for a, ax in grid.axes.items()]]
+                out = [list(grid.axes), [[a, list(ax.coords.items())] for a, ax in grid.axes.items()], repr(grid)]
                 axes = [a for a in grid.axes if any(d in q.dims for d in grid.axes[a].coords.values())]
                 try:
                     r1 = grid.diff(q, axes[:2], boundary="fill", fill_value=spec["fill"])
